@@ -550,6 +550,10 @@ func (d cffDict) readPrivate(p *parser.Parser, strings *cffStrings) (*privateInf
 		return nil, err
 	}
 
+	if int64(pdOffs)+int64(pdSize) > p.Size() {
+		// don't allocate memory for data which is not there
+		return nil, invalidSince("Private DICT extends beyond the end of the data")
+	}
 	privateDictBlob := make([]byte, pdSize)
 	_, err = p.Read(privateDictBlob)
 	if err != nil {
